@@ -132,7 +132,20 @@ def parseLine (p : Parsed) (line : String) : Parsed :=
     if line.startsWith "# nosettle" then { p with expect := { p.expect with settle := false } }
     else if line.startsWith "#" then p else badl
 
-def parseCase (lines : List String) : Parsed := lines.foldl parseLine {}
+def isTick : Action → Bool
+  | .tick _ => true
+  | _ => false
+
+/-- 1-based index of the second-to-last step that contains a tick (0 when there are fewer than two) -/
+def coCutoffOf (steps : List (List Action)) : Nat :=
+  let idx := (List.range steps.length).filter (fun i => (steps.getD i []).any isTick)
+  match idx.reverse with
+  | _ :: b :: _ => b + 1
+  | _ => 0
+
+def parseCase (lines : List String) : Parsed :=
+  let p := lines.foldl parseLine {}
+  { p with expect := { p.expect with coCutoff := coCutoffOf p.steps } }
 
 def scriptsOf (p : Parsed) : Scripts :=
   { hook := fun o k => match p.hooks.find? (fun e => e.1 == (o, k)) with
@@ -145,7 +158,7 @@ def scriptsOf (p : Parsed) : Scripts :=
 def applySetup (S : Scripts) (w : W) : Setup → W
   | .clone k =>
     { w with objList := k :: w.objList,
-             nextReset := fun x => if x = k then w.now + resetDuration else w.nextReset x }
+             nextReset := fun x => if x = k then w.now + resetDuration / 2 else w.nextReset x }
   | .ops o l => (runOps (runHook S hookFuel) o l w).1
 
 def w0Of (p : Parsed) (S : Scripts) : W :=
